@@ -85,18 +85,22 @@ func battery(clock string, embed, ext bool) *Scenario {
 		{Name: "p3", HasC: true, CDef: true, Embed: embed, Ext: ext},
 	}
 	b := Step{K: "build"}
-	sc.Steps = []Step{{K: "crash", Pkg: 2, Target: "lib-manifest"}, b, // the very first build dies between the archive and the manifest of the link-argument package
+	n := Step{K: "noop"} // a rebuild without any change: it reuses what the build before it left in the cache
+	sc.Steps = []Step{{K: "crash", Pkg: 2, Target: "lib-manifest"}, b, n, // the very first build dies between the archive and the manifest of the link-argument package
 		{K: "edit-src-same", Pkg: 3}, b, // shared leaf: both importers and their importers must follow
 		{K: "edit-c", Pkg: 2, Arg: 1}, b, // second C file
 		{K: "edit-c", Pkg: 2, Arg: 0}, b,
 		{K: "edit-src", Pkg: 1}, {K: "crash", Pkg: 1, Target: "manifest"}, b,
-		{K: "edit-c", Pkg: 2, Arg: 1}, {K: "crash", Pkg: 2, Target: "manifest"}, b, // archive without manifest of a package with link arguments
+		{K: "edit-c", Pkg: 2, Arg: 1}, {K: "crash", Pkg: 2, Target: "manifest"}, b, n, // archive without manifest of a package with link arguments
 		{K: "tag"}, b,
 		{K: "edit-src-same", Pkg: 2}, {K: "crash", Pkg: 2, Target: "archive"}, b,
-		{K: "noop"},
-		{K: "edit-c", Pkg: 2, Arg: 0}, {K: "fserr", Pkg: 2, Target: "archive-write"}, b, // disk full while the archive is copied into the cache
-		{K: "edit-src", Pkg: 1}, {K: "fserr", Pkg: 1, Target: "archive-close"}, b,
-		{K: "edit-src-same", Pkg: 3}, {K: "fserr", Pkg: 3, Target: "manifest-write"}, b,
+		n,
+		{K: "edit-src-same", Pkg: 2}, {K: "crash", Pkg: 2, Target: "archive-write", Torn: true}, b, n, // killed half-way through a write into the archive's cache file
+		{K: "edit-c", Pkg: 2, Arg: 0}, {K: "fserr", Pkg: 2, Target: "archive-write"}, b, n, // disk full while the archive is copied into the cache
+		{K: "edit-src", Pkg: 1}, {K: "fserr", Pkg: 1, Target: "archive-close"}, b, n,
+		{K: "edit-src-same", Pkg: 3}, {K: "fserr", Pkg: 3, Target: "manifest-write"}, b, n,
+		{K: "clear"}, {K: "fserr", Pkg: 2, Target: "lib-manifest-write"}, b, n, // disk full while the manifest of the link-argument package is written
+		{K: "clear"}, {K: "crash", Pkg: 2, Target: "lib-manifest-write"}, b, n, // killed there
 		{K: "abi", Arg: 1}, b,
 		{K: "repro"}, // the same sources compiled by two compiler processes: byte-identical intermediate code
 		{K: "abi", Arg: 2}, {K: "env", Arg: 1}, b, // LLGO_TRACE=1: every function announces itself; all packages must be recompiled
@@ -172,15 +176,27 @@ func (prop) Generate(rng *sim.Rng, tier string, runIndex int) driver.Scenario {
 	if tier == "thorough" {
 		ns = rng.Range(4, 14)
 	}
+	libFault := false
 	if rng.Intn(4) == 0 {
 		for i, p := range sc.Pkgs {
 			if p.LinkLib {
-				sc.Steps = append(sc.Steps, Step{K: "crash", Pkg: i, Target: "lib-manifest"})
+				switch rng.Intn(3) {
+				case 0:
+					sc.Steps = append(sc.Steps, Step{K: "crash", Pkg: i, Target: "lib-manifest"})
+				case 1:
+					sc.Steps = append(sc.Steps, Step{K: "crash", Pkg: i, Target: "lib-manifest-write", Torn: rng.Bool()})
+				case 2:
+					sc.Steps = append(sc.Steps, Step{K: "fserr", Pkg: i, Target: "lib-manifest-write"})
+				}
+				libFault = true
 				break
 			}
 		}
 	}
 	sc.Steps = append(sc.Steps, Step{K: "build"})
+	if libFault {
+		sc.Steps = append(sc.Steps, Step{K: "noop"}) // reuses what the faulted build left behind
+	}
 	for len(sc.Steps) < ns {
 		pi := rng.Intn(n)
 		p := sc.Pkgs[pi]
@@ -225,17 +241,22 @@ func (prop) Generate(rng *sim.Rng, tier string, runIndex int) driver.Scenario {
 		sc.Steps = append(sc.Steps, st)
 		if st.K != "noop" && st.K != "clear" && st.K != "crash" && st.K != "fserr" && st.K != "repro" {
 			// every edit is followed by a rebuild (possibly an interrupted one first)
+			targeted := false
 			if rng.Intn(4) == 0 {
 				sc.Steps = append(sc.Steps, Step{K: []string{"crash", "fserr"}[rng.Intn(2)], Arg: rng.Range(0, 30), Torn: rng.Intn(3) == 0, FromEnd: true})
 			} else if rng.Intn(4) == 0 && strings.HasPrefix(st.K, "edit") {
 				// the build dies between publishing the edited package's archive and its manifest (or just before the archive)
 				if rng.Bool() {
-					sc.Steps = append(sc.Steps, Step{K: "crash", Pkg: st.Pkg, Target: []string{"manifest", "manifest", "archive"}[rng.Intn(3)]})
+					sc.Steps = append(sc.Steps, Step{K: "crash", Pkg: st.Pkg, Target: []string{"manifest", "manifest", "archive", "archive-write", "manifest-write"}[rng.Intn(5)], Torn: rng.Bool()})
 				} else {
 					sc.Steps = append(sc.Steps, Step{K: "fserr", Pkg: st.Pkg, Target: []string{"archive-write", "archive-close", "manifest-write"}[rng.Intn(3)]})
 				}
+				targeted = true
 			}
 			sc.Steps = append(sc.Steps, Step{K: "build"})
+			if targeted && rng.Bool() {
+				sc.Steps = append(sc.Steps, Step{K: "noop"})
+			}
 		} else if st.K == "crash" || st.K == "fserr" || st.K == "clear" {
 			sc.Steps = append(sc.Steps, Step{K: "build"})
 		}
@@ -657,6 +678,11 @@ func (w *world) build(crashAt int, fserr int, torn bool, match ...string) buildR
 	if len(match) > 0 && match[0] != "" {
 		if strings.HasPrefix(match[0], "fserr:") {
 			cmd.Env = append(cmd.Env, "VERIF_FSERR_MATCH="+strings.TrimPrefix(match[0], "fserr:"))
+		} else if strings.HasPrefix(match[0], "write:") {
+			cmd.Env = append(cmd.Env, "VERIF_CRASH_WRITE="+strings.TrimPrefix(match[0], "write:"))
+			if torn {
+				cmd.Env = append(cmd.Env, "VERIF_CRASH_TORN=1")
+			}
 		} else {
 			cmd.Env = append(cmd.Env, "VERIF_CRASH_MATCH="+match[0])
 		}
@@ -997,18 +1023,33 @@ func (prop) Run(scx driver.Scenario, ch *sim.Choices, keep bool) *driver.Result 
 				fserr = k
 			}
 			match := ""
-			if pendingFault.K == "crash" && pendingFault.Target != "" {
-				suffix := map[string]string{"manifest": ".manifest", "archive": ".a", "lib-manifest": ".manifest"}[pendingFault.Target]
+			// a target names an operation on the cache entry of package Pkg, or, with
+			// the prefix "lib-", of its link-argument companion <name>lib
+			tgt := strings.TrimPrefix(pendingFault.Target, "lib-")
+			pkgPath := ""
+			if pendingFault.Target != "" {
 				name := sc.Pkgs[pendingFault.Pkg].Name
-				if pendingFault.Target == "lib-manifest" {
+				if strings.HasPrefix(pendingFault.Target, "lib-") {
 					name += "lib"
 				}
-				match = "rename|/" + w.modOf(pendingFault.Pkg) + "/" + name + "/|" + suffix
+				pkgPath = "/" + w.modOf(pendingFault.Pkg) + "/" + name + "/"
+				if strings.HasPrefix(pendingFault.Target, "lib-") {
+					pkgPath = "/c13mod/" + name + "/"
+				}
+			}
+			if pendingFault.K == "crash" && (tgt == "archive-write" || tgt == "manifest-write") {
+				// die at the first write into the package's archive / manifest in the
+				// cache (temporary or final name), optionally after half of it
+				match = "write:" + pkgPath + "|" + map[string]string{"archive-write": ".a", "manifest-write": "manifest"}[tgt]
+				crashAt = 0
+			} else if pendingFault.K == "crash" && pendingFault.Target != "" {
+				suffix := map[string]string{"manifest": ".manifest", "archive": ".a"}[tgt]
+				match = "rename|" + pkgPath + "|" + suffix
 				crashAt = 0
 			}
 			if pendingFault.K == "fserr" && pendingFault.Target != "" {
-				m := map[string]string{"archive-write": "write|%s|.a.tmp-", "archive-close": "close|%s|.a.tmp-", "manifest-write": "write|%s|manifest-"}[pendingFault.Target]
-				match = "fserr:" + fmt.Sprintf(m, "/"+w.modOf(pendingFault.Pkg)+"/"+sc.Pkgs[pendingFault.Pkg].Name+"/")
+				m := map[string]string{"archive-write": "write|%s|.a", "archive-close": "close|%s|.a", "manifest-write": "write|%s|manifest"}[tgt]
+				match = "fserr:" + fmt.Sprintf(m, pkgPath)
 				fserr = 0
 			}
 			if crashAt > 0 || fserr > 0 || match != "" {
